@@ -397,12 +397,13 @@ func (c callRec) term() string {
 		return vgen.App("DRKeyACL.CallDeriveLvl1", p, s, d)
 	case 2:
 		return vgen.App("DRKeyACL.CallGetLvl1", p, s, d)
+	// the hosts are the ones the engine was asked for (net.ParseIP of the strings it received)
 	case 3:
-		return vgen.App("DRKeyACL.CallASHost", p, s, d)
+		return vgen.App("DRKeyACL.CallASHost", p, s, d, parsed(c.DstHst))
 	case 4:
-		return vgen.App("DRKeyACL.CallHostAS", p, s, d)
+		return vgen.App("DRKeyACL.CallHostAS", p, s, d, parsed(c.SrcHost))
 	case 5:
-		return vgen.App("DRKeyACL.CallHostHost", p, s, d)
+		return vgen.App("DRKeyACL.CallHostHost", p, s, d, parsed(c.SrcHost), parsed(c.DstHst))
 	}
 	return vgen.App("DRKeyACL.CallSV", p)
 }
